@@ -31,7 +31,9 @@ RULE = ("cases = (a) pipelines: scanner inputs (direct found_host calls, cache-f
         "a scratch hosts file with foreign lines, among them the marked lines of other sshuttle instances whose "
         "ports are digit-prefixes / -suffixes / -infixes of this session's port (and vice versa); "
         "(b) arbitrary host-list payloads handed to the client; (c) arbitrary scanner streams handed to the "
-        "server under arbitrary chunkings (including over-long lines). Non-trivial = at least one record was "
+        "server under arbitrary chunkings (including over-long lines). Every case runs at a verbosity level from the rotation [0,0,3,0,2,0,13,1] shifted by the seed "
+        "(13 = level 3 with a failing stderr), set around every call into the real code; the level is part of the replay. "
+        "Non-trivial = at least one record was "
         "emitted / skipped / delivered; distinct = distinct canonical input")
 MANIFEST = dict(
     level_text=("Machine-checked Lean 4 theorems over a statement-by-statement model of hostwatch.found_host, the "
@@ -66,6 +68,50 @@ QUAD_RE = re.compile(r'[0-9]{1,3}\.[0-9]{1,3}\.[0-9]{1,3}\.[0-9]{1,3}\Z', re.ASC
 
 class _Stop(Exception):
     pass
+
+
+ROTATION = [0, 0, 3, 0, 2, 0, 13, 1]     # verbosity per case; 13 = level 3 with a stderr whose write() fails
+LEVEL = [0]
+CASE_NO = [0]
+
+
+def next_level(ctx, fixed=None):
+    """Verbosity is a dimension of every case: the level comes from ROTATION, shifted by the seed (so over
+    eight seeds every directed case has run at every level); it is stored in the replay case.  The oracle
+    does not know the level: what arrives must not depend on it."""
+    if fixed is None:
+        fixed = ROTATION[(CASE_NO[0] + ctx.seed) % len(ROTATION)]
+        CASE_NO[0] += 1
+    LEVEL[0] = fixed
+    ctx.hist('verbosity:%d' % fixed)
+    return fixed
+
+
+class EioStderr:
+    def write(self, s):
+        raise OSError(5, 'Input/output error')
+
+    def flush(self):
+        pass
+
+
+def v_stderr():
+    return EioStderr() if LEVEL[0] == 13 else io.StringIO()
+
+
+class at_level:
+    """`with at_level():` — sshuttle.helpers.verbose and sys.stderr set for the current case around a call
+    into the real code (scanner, server relay, client onhostlist, FirewallClient, helper), restored afterwards."""
+
+    def __enter__(self):
+        import sshuttle.helpers as helpers
+        self.saved = (helpers, helpers.verbose, sys.stderr)
+        helpers.verbose = LEVEL[0] % 10
+        sys.stderr = v_stderr()
+
+    def __exit__(self, *a):
+        helpers, helpers.verbose, sys.stderr = self.saved[0], self.saved[1], self.saved[2]
+        return False
 
 
 class _Proxy:
@@ -130,9 +176,9 @@ class Scanner:
         hostwatch.queue = {}
         hostwatch.SHOULD_WRITE_CACHE = False
         hostwatch.CACHE_WRITE_FAILED = False
-        helpers.verbose = 0
+        helpers.verbose = LEVEL[0] % 10
         sys.stdout = self.out
-        sys.stderr = io.StringIO()
+        sys.stderr = v_stderr()
 
     def close(self):
         hw = self.hw
@@ -285,8 +331,8 @@ class Server:
         server.start_hostwatch = lambda seeds, auto: (4242, srv.sock)
         ssnet.runonce = runonce
         sys.stdout = io.StringIO()
-        sys.stderr = io.StringIO()
-        helpers.verbose = 0
+        sys.stderr = v_stderr()
+        helpers.verbose = LEVEL[0] % 10
         try:
             try:
                 server.main(False, 32768, True, None, False)
@@ -306,7 +352,8 @@ class Server:
         self.sock.next = chunk
         w0 = len(self.wfile.written)
         try:
-            self.ready(self.sock)
+            with at_level():
+                self.ready(self.sock)
         except AssertionError:
             return 'assertLen', None, None, b''
         except Exception as e:  # noqa
@@ -314,9 +361,10 @@ class Server:
                 return 'fatalDied', None, None, b''
             return 'other:' + type(e).__name__, None, None, b''
         guard = 0
-        while self.mux.outbuf and guard < 100:
-            self.mux.flush()
-            guard += 1
+        with at_level():
+            while self.mux.outbuf and guard < 100:
+                self.mux.flush()
+                guard += 1
         wire = self.wfile.written[w0:]
         payload = None      # None: this read queued no HOST_LIST frame at all
         if len(wire) >= 8:
@@ -327,9 +375,20 @@ class Server:
 
 # ------------------------------------------------------------------ stage 3: client
 
-class RecFile:
+class RecFile(io.BufferedIOBase):
+    """pfile of the FirewallClient: a real buffered-file object (writelines() etc. exist) recording writes."""
+
     def __init__(self):
         self.written = b''
+
+    def writable(self):
+        return True
+
+    def readable(self):
+        return True
+
+    def close(self):
+        pass
 
     def write(self, b):
         self.written += bytes(b)
@@ -338,7 +397,7 @@ class RecFile:
     def flush(self):
         pass
 
-    def readline(self):
+    def readline(self, size=-1):
         return b'STARTED\n'
 
 
@@ -381,8 +440,8 @@ class Client:
         ssh.connect = lambda *a, **k: (Proc(), self.rfile, FakeFile())
         ssnet.runonce = runonce
         sys.stdout = io.StringIO()
-        sys.stderr = io.StringIO()
-        helpers.verbose = 0
+        sys.stderr = v_stderr()
+        helpers.verbose = LEVEL[0] % 10
         try:
             try:
                 client._main(Listener(), None, fw, None, 'host', None, False, 32768,
@@ -397,8 +456,10 @@ class Client:
         """Feed tunnel bytes to the real client Mux. Returns (tag, HOST bytes written)."""
         w0 = len(self.fw.pfile.written)
         self.rfile.next = wire
-        old = sys.stderr
-        sys.stderr = io.StringIO()
+        import sshuttle.helpers as helpers
+        old = (sys.stderr, helpers.verbose)
+        sys.stderr = v_stderr()
+        helpers.verbose = LEVEL[0] % 10
         try:
             try:
                 while self.rfile.next:
@@ -410,7 +471,7 @@ class Client:
             except Exception as e:  # noqa
                 return 'other:' + type(e).__name__, self.fw.pfile.written[w0:]
         finally:
-            sys.stderr = old
+            sys.stderr, helpers.verbose = old
         return 'ok', self.fw.pfile.written[w0:]
 
 
@@ -466,8 +527,8 @@ def run_helper(host_bytes, p6, p4, hosts_content, tmpdir):
     firewall.rewrite_etc_hosts = wrapped
     firewall.HOSTSFILE = path
     firewall.flush_systemd_dns_cache = lambda: None
-    helpers.verbose = 0
-    sys.stderr = io.StringIO()
+    helpers.verbose = LEVEL[0] % 10
+    sys.stderr = v_stderr()
     end = 'eof'
     try:
         try:
@@ -730,6 +791,7 @@ class Log:
 def pipeline_case(ctx, case, tmpdir):
     """Run one end-to-end case on the real code. Returns the correspondence log."""
     log = Log('pipeline')
+    case['level'] = next_level(ctx, case.get('level'))
     ops = [tuple(o) for o in case['ops']]
     # 1. scanner
     sc = Scanner(case['encoding'], tmpdir)
@@ -855,10 +917,11 @@ def pipeline_case(ctx, case, tmpdir):
     return log
 
 
-def payload_case(ctx, payload, tmpdir, ports=(0, 12300), hosts_file=HOSTS_FILES[0]):
+def payload_case(ctx, payload, tmpdir, ports=(0, 12300), hosts_file=HOSTS_FILES[0], level=None):
     """An arbitrary HOST_LIST payload handed to the real client, then on to the real helper."""
     log = Log('payload')
-    case = dict(kind='payload', payload=hexb(payload), ports=list(ports), hosts_file=hosts_file)
+    case = dict(kind='payload', payload=hexb(payload), ports=list(ports), hosts_file=hosts_file,
+                level=next_level(ctx, level))
     cl = Client()
     tag, written = cl.deliver(frame(payload))
     log.ins.append('hostlist ' + hexb(payload))
@@ -917,9 +980,10 @@ def rand_payload(rng):
     return s.encode('utf-8', 'surrogatepass')[:60000]
 
 
-def stream_case(ctx, stream, chunks):
+def stream_case(ctx, stream, chunks, level=None):
     """Arbitrary bytes through the real hostwatch_ready (correspondence + reassembly oracle)."""
     log = Log('stream')
+    level = next_level(ctx, level)
     log.nontrivial = len(chunks) > 1
     srv = Server()
     log.ins.append('hw-reset')
@@ -939,7 +1003,7 @@ def stream_case(ctx, stream, chunks):
     ctx.hist('stream:ok')
     if payloads != fed[:cut] or srv.hw.leftover != fed[cut:]:
         ctx.violation('C19:server:reassembly-lost-or-duplicated-bytes',
-                      case=dict(kind='stream', chunks=[hexb(c) for c in chunks]),
+                      case=dict(kind='stream', chunks=[hexb(c) for c in chunks], level=level),
                       expected=dict(payloads=hexb(fed[:cut])[:400]), observed=dict(payloads=hexb(payloads)[:400]))
     return log
 
@@ -1053,9 +1117,11 @@ def compare(ctx, logs):
 
 def run(ctx):
     tmpdir = tempfile.mkdtemp(prefix='verif_c19_')
+    CASE_NO[0] = 0
     try:
         logs = gen_cases(ctx, tmpdir)
     finally:
+        LEVEL[0] = 0
         shutil.rmtree(tmpdir, ignore_errors=True)
     seen = set()
     for lg in logs:
@@ -1079,10 +1145,11 @@ def replay(ctx, rep):
     tmpdir = tempfile.mkdtemp(prefix='verif_c19_')
     try:
         if case.get('kind') == 'payload':
-            payload_case(c2, common.unhex(case['payload']), tmpdir, tuple(case['ports']), case['hosts_file'])
+            payload_case(c2, common.unhex(case['payload']), tmpdir, tuple(case['ports']), case['hosts_file'],
+                         level=case.get('level', 0))
         elif case.get('kind') == 'stream':
             chunks = [common.unhex(c) for c in case['chunks']]
-            stream_case(c2, b''.join(chunks), chunks)
+            stream_case(c2, b''.join(chunks), chunks, level=case.get('level', 0))
         else:
             ops = []
             for o in case['ops']:
@@ -1090,8 +1157,9 @@ def replay(ctx, rep):
                 if o[0] in ('cache', 'etc') and isinstance(o[1], dict):
                     o[1] = bytes.fromhex(o[1]['hex'])
                 ops.append(tuple(o))
-            pipeline_case(c2, dict(case, ops=ops), tmpdir)
+            pipeline_case(c2, dict(case, ops=ops, level=case.get('level', 0)), tmpdir)
     finally:
+        LEVEL[0] = 0
         shutil.rmtree(tmpdir, ignore_errors=True)
     if c2.violations:
         v = c2.violations[0]
